@@ -17,6 +17,7 @@ import Golib.Step.Plain
 import Golib.Step.TxRecord
 import Golib.Step.LegacyCarried
 import Golib.Step.Prefix
+import Golib.Step.Reuse
 import Golib.Step.ValueInst
 
 namespace C08
@@ -427,6 +428,148 @@ theorem service_prefix_fails (s : Item) (h : s.ok valueRT serviceTable) (q a : B
     (hq : q ++ a = s.bytes) : readOne serviceTable q = none :=
   tagged_prefix_fails valueRT serviceTable (by decide) s h q a ha hq
 
+/-! ### decoding into an object used before, and histories of it -/
+
+/-- `obj.Read(in)` on an existing object `o`: the fields the reader assigns for this record laid over
+    `o`, exactly the record's bytes consumed -/
+theorem readinto_roundtrip (l : L) (o x : Rec) (r : Bytes) (h : WF l x) :
+    l.readInto o (l.write x ++ r) = some ((l.expect x []).over o, r) :=
+  L.readInto_roundtrip valueRT l o x r h
+
+/-- frame conditions: a field not assigned for this record — an absent optional section, a field of
+    another version, any name the layout does not mention — keeps the object's previous value; an
+    assigned field does not depend on the previous value -/
+theorem readinto_frame (l : L) (o x : Rec) (nm : String) (h : nm ∉ l.assigned x) :
+    (l.expect x []).over o nm = o nm := over_frame l o x nm h
+theorem readinto_foreign (l : L) (o x : Rec) (nm : String) (h : nm ∉ l.names) :
+    (l.expect x []).over o nm = o nm := over_other l o x nm h
+theorem readinto_assigned (l : L) (o o' x : Rec) (nm : String) (h : nm ∈ l.assigned x) :
+    (l.expect x []).over o nm = (l.expect x []).over o' nm := over_assigned l o o' x nm h
+
+/-- a whole history: `n` records decoded one after another into the same object from one stream (followed
+    by anything) leave the left fold of "assigned fields over the object", and the rest untouched -/
+theorem readinto_history (l : L) (xs : List Rec) (o : Rec) (r : Bytes) (h : ∀ x ∈ xs, WF l x) :
+    l.readIntoSeq xs.length o (writeSeq l xs ++ r) = some (l.afterAll o xs, r) :=
+  L.readIntoSeq_roundtrip valueRT l xs o r h
+
+/-- … in which a field no record assigns keeps its initial value, and the last record decides the
+    fields it assigns -/
+theorem history_untouched (l : L) (o : Rec) (xs : List Rec) (nm : String) (h : ∀ x ∈ xs, nm ∉ l.assigned x) :
+    l.afterAll o xs nm = o nm := L.afterAll_untouched l o xs nm h
+theorem history_last_wins (l : L) (o : Rec) (xs : List Rec) (x : Rec) (nm : String) (h : nm ∈ l.assigned x) :
+    l.afterAll o (xs ++ [x]) nm = (l.expect x []).over o nm := L.afterAll_last l o xs x nm h
+
+/-- TxRecord.Read into a used record, field by field: always-present fields and the error level come
+    from the bytes; the multi-trace ids, the caller identity and the custom fields come from the bytes
+    when the record carries them and otherwise KEEP what the object held (the reader assigns optional
+    sections only when present); nothing else is touched -/
+theorem txrecord_readinto (o x : Rec) :
+    let p := (txRecord.expect x []).over o
+    (∀ nm ∈ txPlain, p nm = x nm) ∧
+    (if (x "Mtid").toInt ≠ 0 then p "Mtid" = x "Mtid" ∧ p "Mdepth" = x "Mdepth" ∧ p "Mcaller" = x "Mcaller"
+     else p "Mtid" = o "Mtid" ∧ p "Mdepth" = o "Mdepth" ∧ p "Mcaller" = o "Mcaller") ∧
+    (if (x "McallerPcode").toInt ≠ 0
+     then p "McallerPcode" = x "McallerPcode" ∧ p "McallerOkind" = x "McallerOkind" ∧ p "McallerOid" = x "McallerOid" ∧
+          p "McallerSpec" = x "McallerSpec" ∧ p "McallerUrl" = x "McallerUrl" ∧ p "MthisSpec" = x "MthisSpec"
+     else p "McallerPcode" = o "McallerPcode" ∧ p "McallerOkind" = o "McallerOkind" ∧ p "McallerOid" = o "McallerOid" ∧
+          p "McallerSpec" = o "McallerSpec" ∧ p "McallerUrl" = o "McallerUrl" ∧ p "MthisSpec" = o "MthisSpec") ∧
+    (p "Fields" = match (x "Fields").toMapN with
+                  | some (kv :: kvs) => .m (some (kv :: kvs))
+                  | _ => o "Fields") ∧
+    p "ErrorLevel" = (if (x "ErrorLevel").toInt = 0 ∧ (x "Error").toInt ≠ 0 then .i 20 else x "ErrorLevel") ∧
+    (∀ nm, nm ∉ txRecord.names → p nm = o nm) := by
+  intro p
+  obtain ⟨h1, h2, h3, h4, h5⟩ := txRecord_carried x
+  refine ⟨fun nm hn => by simp only [p, Env.over, h1 nm hn], ?_, ?_, ?_, by simp only [p, Env.over, h5],
+    fun nm hn => over_other txRecord o x nm hn⟩
+  · split
+    · rename_i hm; rw [if_pos hm] at h2; simp only [p, Env.over, h2.1, h2.2.1, h2.2.2, and_self]
+    · rename_i hm; rw [if_neg hm] at h2; simp only [p, Env.over, h2.1, h2.2.1, h2.2.2, and_self]
+  · split
+    · rename_i hp; rw [if_pos hp] at h3
+      simp only [p, Env.over, h3.1, h3.2.1, h3.2.2.1, h3.2.2.2.1, h3.2.2.2.2.1, h3.2.2.2.2.2, and_self]
+    · rename_i hp; rw [if_neg hp] at h3
+      simp only [p, Env.over, h3.1, h3.2.1, h3.2.2.1, h3.2.2.2.1, h3.2.2.2.2.1, h3.2.2.2.2.2, and_self]
+  · simp only [p, Env.over, h4]
+    cases (x "Fields").toMapN with
+    | none => rfl
+    | some kvs => cases kvs <;> rfl
+
+/-- HttpcStepX.Read of a version-1 step into a used object: the version-2 details keep their previous
+    values -/
+theorem httpc_readinto_v1 (o x : Rec) (hv : x "Version" = .i 1) :
+    let p := (httpcStepX.expect x []).over o
+    p "Version" = .i 1 ∧ p "StepId" = o "StepId" ∧ p "Driver" = o "Driver" ∧ p "OriginUrl" = o "OriginUrl" ∧
+    p "Param" = o "Param" := by
+  intro p
+  obtain ⟨h0, h1, h2, h3, h4, _, _⟩ := httpc_v1_details x hv
+  have hver : (httpcStepX.expect x []).lookup "Version" = some (.i 1) := by
+    simp only [httpcStepX, absStep, seq, L.expect, hv, Val.toInt]
+    simp (decide := true) [List.lookup]
+  simp only [p, Env.over, hver, h1, h2, h3, h4, and_self]
+
+/-- MessageStepX.Read into a used object: `Attr` is assigned only when a map was written -/
+theorem messagestepx_readinto_attr (o x : Rec) :
+    (messageStepX.expect x []).over o "Attr" = (match (x "Attr").toMap with
+                                               | some kvs => .m (some kvs)
+                                               | none => o "Attr") := by
+  have h := (message_attrs x).1
+  simp only [Env.over, h]
+  cases (x "Attr").toMap <;> rfl
+
+/-- `ProfilePack.Read` on a used pack builds its transaction record afresh: the transaction fields of the
+    result do not depend on what the pack held (no multi-trace id, caller identity or custom field of the
+    previous record can show, whatever the new record carries) -/
+theorem profilepack_transaction_fresh (o o' x : Rec) (r : Bytes) (h : WF profilePackBody x) (p p' : Rec)
+    (hp : profilePackReadInto o (profilePackBody.write x ++ r) = some (p, r))
+    (hp' : profilePackReadInto o' (profilePackBody.write x ++ r) = some (p', r)) :
+    ∀ nm ∈ txRecord.names, p nm = p' nm :=
+  Step.profilepack_transaction_fresh valueRT o o' x r h p p' hp hp'
+
+/-! ### truncated records that hold tagged values (TxRecord, MessageStepX, the ProfilePack body) -/
+
+/-- the tagged values of these records live inside a length-prefixed blob that the reader takes whole
+    before looking into it, so a strict prefix of the encoding never decodes -/
+theorem txrecord_prefix_fails (x : Rec) (h : WF txRecord x) (q a : Bytes) (ha : a ≠ [])
+    (hq : q ++ a = txRecord.write x) : txRecord.read [] q = none :=
+  layout_prefix_fails valueRT txRecord (by decide) x h q a ha hq
+
+theorem messagestepx_prefix_fails (x : Rec) (h : WF messageStepX x) (q a : Bytes) (ha : a ≠ [])
+    (hq : q ++ a = messageStepX.write x) : messageStepX.read [] q = none :=
+  layout_prefix_fails valueRT messageStepX (by decide) x h q a ha hq
+
+theorem profilepack_body_prefix_fails (x : Rec) (h : WF profilePackBody x) (q a : Bytes) (ha : a ≠ [])
+    (hq : q ++ a = profilePackBody.write x) : profilePackBody.read [] q = none :=
+  layout_prefix_fails valueRT profilePackBody (by decide) x h q a ha hq
+
+/-- the same for an encoding of an older agent -/
+theorem txrecord_legacy_prefix_fails (w g f : Nat) (x : Rec) (h : txRecord.WFAlt valueRT (legacyChoice w g f) x [])
+    (q a : Bytes) (ha : a ≠ []) (hq : q ++ a = txRecord.writeAlt (legacyChoice w g f) x) :
+    txRecord.read [] q = none := by
+  rw [← L.readP_run txRecord (by decide)]
+  apply P.prefix_fails (txRecord.readP []) q a (txRecord.expectAlt (legacyChoice w g f) x []) ha
+  rw [L.readP_run txRecord (by decide), hq]
+  simpa using L.roundtrip_alt valueRT txRecord _ x [] [] h
+
+/-! ### streams of service records -/
+
+/-- `k` records of any mix of the three service types written one after another with `service.ToBytes`
+    are read back by `k` calls of `service.ToObject` from the one stream, each consuming exactly its own
+    bytes; nothing is left (and whatever followed is untouched) -/
+theorem service_stream_roundtrip_n (ss : List Item) (r : Bytes) (h : ∀ s ∈ ss, s.ok valueRT serviceTable) :
+    readN serviceTable ss.length (toBytesStep ss ++ r) = some (ss.map Item.expected, r) :=
+  Step.stream_roundtrip_n valueRT serviceTable ss r h
+
+theorem service_stream_roundtrip (ss : List Item) (h : ∀ s ∈ ss, s.ok valueRT serviceTable) :
+    readAll serviceTable (toBytesStep ss) = some (ss.map Item.expected) :=
+  Step.stream_roundtrip valueRT serviceTable ss h
+
+theorem service_stream_prefix (ss : List Item) (h : ∀ s ∈ ss, s.ok valueRT serviceTable) (q a : Bytes) (ha : a ≠ [])
+    (hq : q ++ a = toBytesStep ss) :
+    readAll serviceTable q = none ∨
+    ∃ k, k < ss.length ∧ readAll serviceTable q = some ((ss.take k).map Item.expected) :=
+  Step.stream_prefix valueRT serviceTable (by decide) ss h q a ha hq
+
 /-! ### what the code as found does (the three repairs proposed in proposed/C08, one known finding) -/
 
 /-- the reader of MessageStepX as found: it decodes a value whether or not bytes are left -/
@@ -556,6 +699,15 @@ example : (txRecord.writeAlt (legacyChoice 12 7 3) (fun nm => if nm = "Mtid" ∨
 example : readOne stepTable [8, 1, 1, 0, 0, 2, 255, 127, 0] = none := by decide
 example : (readAll stepTable [8, 1, 1, 0, 0, 2, 255, 127, 0, 0]).map List.length = some 1 := by decide
 example : (readAll stepTable [8, 1, 1, 0, 0, 2, 255, 127, 0, 0, 6, 1, 1]).isNone = true := by decide
+
+/-- a history of two records decoded into one TxRecord: the second carries no multi-trace ids, so the
+    depth of the first survives, while the always-present field is the second's (what `txrecord_readinto`
+    says; `ProfilePack.Read` avoids it by building a fresh record) -/
+example :
+    let x1 : Rec := fun nm => if nm = "Mtid" then .i 5 else if nm = "Mdepth" then .i 7 else if nm = "Elapsed" then .i 1 else .i 0
+    let x2 : Rec := fun nm => if nm = "Elapsed" then .i 2 else .i 0
+    ((txRecord.afterAll (fun _ => .i 0) [x1, x2]) "Mdepth").toInt = 7 ∧
+    ((txRecord.afterAll (fun _ => .i 0) [x1, x2]) "Elapsed").toInt = 2 := by decide +kernel
 
 /-- a MessageStepX with a two-entry attribute map (the shape of the repository's only round-trip test) -/
 example : WF messageStepX sample := by
